@@ -129,9 +129,9 @@ Section P.
   Proof. unfold keys_of, vals_of. now rewrite !map_length. Qed.
 
   (* ========== binary family, default=None ========== *)
-  Theorem binary_same_keys f closed (s o : items) :
+  Theorem binary_same_keys fx f closed (s o : items) :
     NoDup (keys_of s) -> NoDup (keys_of o) -> s <> [] -> same_keysb s o = true ->
-    exists r, binary_plan f closed s (OpTd o) DNone = Ok r /\ forall k, dget r k = spec_same s o k.
+    exists r, binary_plan fx f closed s (OpTd o) DNone = Ok r /\ forall k, dget r k = spec_same s o k.
   Proof.
     intros Hs Ho Hne Hk0. pose proof (proj1 (same_keysb_true s o) Hk0) as Hk.
     assert (Hlen : List.length (keys_of s) = List.length (keys_of o)) by (apply nodup_same_length; assumption).
@@ -139,7 +139,8 @@ Section P.
     { intros ->. destruct s as [|[k v] s]; [congruence|]. cbn in Hlen. discriminate. }
     destruct (sequence_all (dget o) (keys_of s)) as [ov [Hov Hl]].
     { intros k Hin. apply dget_in_some. unfold keys_of in *. now apply Hk. }
-    unfold binary_plan, items_list_c09. destruct o as [|o0 o']; [congruence|]. set (o := o0 :: o') in *.
+    destruct o as [|o0 o']; [congruence|]. unfold binary_plan, items_list_c09. cbn [is_nil]. rewrite andb_false_r.
+    set (o := o0 :: o') in *.
     unfold items_list_aligned. rewrite align_eager_nodup by assumption. rewrite Hov.
     assert (Hvl : List.length (vals_of o) = List.length ov).
     { rewrite <- keys_vals_length. lia. }
@@ -162,10 +163,10 @@ Section P.
   Qed.
 
   Theorem binary_diff_keys_raises f closed (s o : items) :
-    NoDup (keys_of s) -> NoDup (keys_of o) -> o <> [] -> same_keysb s o = false ->
-    binary_plan f closed s (OpTd o) DNone = Raised.
+    NoDup (keys_of s) -> NoDup (keys_of o) -> same_keysb s o = false ->
+    binary_plan true f closed s (OpTd o) DNone = Raised.
   Proof.
-    intros Hs Ho Hne Hk. unfold binary_plan, items_list_c09. destruct o as [|o0 o']; [congruence|]. set (o := o0 :: o') in *.
+    intros Hs Ho Hk. unfold binary_plan, items_list_c09. cbn [negb andb].
     unfold items_list_aligned. rewrite align_eager_nodup by assumption.
     unfold same_keysb in Hk. apply andb_false_iff in Hk. destruct Hk as [Hk|Hk].
     - (* a key of self is missing in other *)
@@ -199,9 +200,9 @@ Section P.
   Qed.
 
   (* ========== scalar / tensor operand: every entry of self meets the operand ========== *)
-  Theorem binary_scalar f closed (s : items) d :
+  Theorem binary_scalar fx f closed (s : items) d :
     NoDup (keys_of s) -> s <> [] ->
-    exists r, binary_plan f closed s OpScalar d = Ok r /\ forall k, dget r k = spec_scalar s k.
+    exists r, binary_plan fx f closed s OpScalar d = Ok r /\ forall k, dget r k = spec_scalar s k.
   Proof.
     intros Hs Hne. unfold binary_plan.
     assert (Hc : combine_scalar f (vals_of s) = Ok (map (fun v => (v, @ROperand V)) (vals_of s))).
@@ -225,6 +226,7 @@ Section P.
     assert (Hol : List.length o = List.length (keys_of o)) by (unfold keys_of; now rewrite map_length).
     replace (fixed && Nat.ltb (List.length ov) (List.length o)) with false
       by (symmetry; apply andb_false_iff; right; apply Nat.ltb_ge; lia).
+    cbv iota.
     assert (Hnz : List.length (vals_of s) <> 0).
     { rewrite <- keys_vals_length. destruct s; [congruence|cbn; lia]. }
     assert (E1 : Nat.eqb (List.length (vals_of s)) (List.length ov) = true)
@@ -290,7 +292,7 @@ Section P.
 
   Theorem ternary_same_order (s o1 o2 : items) :
     NoDup (keys_of s) -> s <> [] -> keys_of o1 = keys_of s -> keys_of o2 = keys_of s ->
-    exists r, ternary_plan false s (OpTd o1) (OpTd o2) = Ok r /\ forall k, dget r k = spec_tern s o1 o2 k.
+    exists r, ternary_plan false false s (OpTd o1) (OpTd o2) = Ok r /\ forall k, dget r k = spec_tern s o1 o2 k.
   Proof.
     intros Hs Hne H1 H2. unfold ternary_plan, tern_vals.
     assert (L1 : List.length (vals_of o1) = List.length (vals_of s)) by (rewrite <- !keys_vals_length; now rewrite H1).
@@ -302,10 +304,10 @@ Section P.
     apply lookup_triples; apply vals_in_self_order; try assumption; [now rewrite H1|now rewrite H2].
   Qed.
 
-  Theorem ternary_fixed_same_keys (s o1 o2 : items) :
+  Theorem ternary_fixed_same_keys chk (s o1 o2 : items) :
     NoDup (keys_of s) -> NoDup (keys_of o1) -> NoDup (keys_of o2) -> s <> [] ->
     same_keysb s o1 = true -> same_keysb s o2 = true ->
-    exists r, ternary_plan true s (OpTd o1) (OpTd o2) = Ok r /\ forall k, dget r k = spec_tern s o1 o2 k.
+    exists r, ternary_plan true chk s (OpTd o1) (OpTd o2) = Ok r /\ forall k, dget r k = spec_tern s o1 o2 k.
   Proof.
     intros Hs H1 H2 Hne K1 K2.
     pose proof (proj1 (same_keysb_true s o1) K1) as K1'. pose proof (proj1 (same_keysb_true s o2) K2) as K2'.
@@ -313,7 +315,14 @@ Section P.
     { intros k Hin. apply dget_in_some. unfold keys_of in *. now apply K1'. }
     destruct (sequence_all (dget o2) (keys_of s)) as [b [Hb Lb]].
     { intros k Hin. apply dget_in_some. unfold keys_of in *. now apply K2'. }
+    assert (N1 : Nat.ltb (List.length a) (List.length o1) = false).
+    { apply Nat.ltb_ge. rewrite La. replace (List.length o1) with (List.length (keys_of o1)) by (unfold keys_of; now rewrite map_length).
+      rewrite (nodup_same_length _ _ Hs H1 K1'). lia. }
+    assert (N2 : Nat.ltb (List.length b) (List.length o2) = false).
+    { apply Nat.ltb_ge. rewrite Lb. replace (List.length o2) with (List.length (keys_of o2)) by (unfold keys_of; now rewrite map_length).
+      rewrite (nodup_same_length _ _ Hs H2 K2'). lia. }
     unfold ternary_plan, tern_vals, values_list_c09. rewrite !align_eager_nodup by assumption. rewrite Ha, Hb.
+    rewrite N1, N2, !andb_false_r.
     rewrite La, Lb, <- keys_vals_length, !Nat.eqb_refl. cbn [andb].
     replace (Nat.eqb (List.length (keys_of s)) 0) with false
       by (symmetry; apply Nat.eqb_neq; destruct s; [congruence|cbn; lia]).
@@ -347,11 +356,12 @@ Section P.
     - now apply NoDup_filter.
   Qed.
 
-  Theorem binary_default_value f (s o : items) (v : V) :
+  Theorem binary_default_value fx f (s o : items) (v : V) :
     NoDup (keys_of s) -> NoDup (keys_of o) -> o <> [] ->
-    exists r, binary_plan f false s (OpTd o) (DVal v) = Ok r /\ forall k, dget r k = spec_default v s o k.
+    exists r, binary_plan fx f false s (OpTd o) (DVal v) = Ok r /\ forall k, dget r k = spec_default v s o k.
   Proof.
-    intros Hs Ho Hne. unfold binary_plan, items_list_c09. destruct o as [|o0 o']; [congruence|]. set (o := o0 :: o') in *.
+    intros Hs Ho Hne. destruct o as [|o0 o']; [congruence|]. unfold binary_plan, items_list_c09. cbn [is_nil].
+    rewrite andb_false_r. set (o := o0 :: o') in *.
     cbv zeta. rewrite !dict_of_nodup by assumption.
     set (nk := dedup (keys_of s ++ keys_of o)).
     set (gs := fun k => match dget s k with Some x => x | None => v end).
@@ -379,10 +389,10 @@ Section P.
   Qed.
 
   Theorem binary_intersection (s o : items) closed :
-    NoDup (keys_of s) -> NoDup (keys_of o) -> o <> [] ->
-    exists r, binary_plan Loop closed s (OpTd o) DInter = Ok r /\ forall k, dget r k = spec_inter s o k.
+    NoDup (keys_of s) -> NoDup (keys_of o) ->
+    exists r, binary_plan true Loop closed s (OpTd o) DInter = Ok r /\ forall k, dget r k = spec_inter s o k.
   Proof.
-    intros Hs Ho Hne. unfold binary_plan, items_list_c09. destruct o as [|o0 o']; [congruence|]. set (o := o0 :: o') in *.
+    intros Hs Ho. unfold binary_plan, items_list_c09. cbn [negb andb].
     cbv zeta. rewrite !dict_of_nodup by assumption.
     set (nk := filter (fun k => mem k (keys_of o)) (keys_of s)).
     destruct (sequence_all (dget o) nk) as [ov [Hov Lo]].
@@ -398,7 +408,7 @@ Section P.
         apply mem_In in Hin. now rewrite Hin in Hneg. }
     eexists. split; [reflexivity|]. intros k.
     rewrite dict_of_nodup by (rewrite Hm; now apply NoDup_filter).
-    apply sequence_some in Hov, Hsv. clearbody o.
+    apply sequence_some in Hov, Hsv.
     assert (G : forall ks a b, map (dget s) ks = map Some a -> map (dget o) ks = map Some b ->
                 dget (combine ks (combine a (map (@RLeaf V) b))) k = if mem k ks then spec_same s o k else None).
     { clear. induction ks as [|k0 ks IH]; intros [|a0 a] [|b0 b] Ha Hb; cbn in *; try discriminate; [reflexivity|].
@@ -420,7 +430,7 @@ Local Open Scope Z_scope.
 Theorem ternary_positional_refuted :
   exists (s o1 o2 : @items Z) r,
     NoDup (keys_of s) /\ same_keysb s o1 = true /\ same_keysb s o2 = true /\
-    ternary_plan false s (OpTd o1) (OpTd o2) = Ok r /\ dget r "x" <> spec_tern s o1 o2 "x".
+    ternary_plan false false s (OpTd o1) (OpTd o2) = Ok r /\ dget r "x" <> spec_tern s o1 o2 "x".
 Proof.
   exists [("x", 1); ("y", 2)], [("y", 20); ("x", 10)], [("x", 100); ("y", 200)]. eexists.
   split; [repeat constructor; cbn; intuition discriminate|].
@@ -440,15 +450,15 @@ Qed.
 (* an empty `other`: the loop family returns an empty result, clamp_max/clamp_min return self's values *)
 Theorem empty_other_refuted :
   exists (s : @items Z), s <> [] /\ same_keysb s [] = false /\
-    binary_plan Loop false s (OpTd []) DNone = Ok [] /\
-    binary_plan ForeachSwallow false s (OpTd []) DNone = Ok [("x", (1, RUnchanged))].
+    binary_plan false Loop false s (OpTd []) DNone = Ok [] /\
+    binary_plan false ForeachSwallow false s (OpTd []) DNone = Ok [("x", (1, RUnchanged))].
 Proof. exists [("x", 1)]. repeat split; try reflexivity. discriminate. Qed.
 
 (* default=value on a result that cannot take new keys (locked self / tensorclass): raises although the same call on
    the open tensordict returns the documented union *)
 Theorem default_closed_refuted :
-  exists (s o : @items Z) r, binary_plan Foreach false s (OpTd o) (DVal 0) = Ok r /\
-    binary_plan Foreach true s (OpTd o) (DVal 0) = Raised.
+  exists (s o : @items Z) r, binary_plan true Foreach false s (OpTd o) (DVal 0) = Ok r /\
+    binary_plan true Foreach true s (OpTd o) (DVal 0) = Raised.
 Proof. exists [("x", 1)], [("x", 10); ("z", 30)]. eexists. split; reflexivity. Qed.
 
 (* operator spellings *)
